@@ -217,7 +217,28 @@ using Q = eventpp::EventQueue<FKey, void(uint32_t), OPol>;
 extern "C" void harness()
 {
 	Q * q = new Q();
-	for(int k = 1; k <= 3; k++) q->appendListener(FKey(k), [k](uint32_t x) { g_tr.add((uint32_t)k, x, 0); });
+	for(int k = 1; k <= 4; k++) q->appendListener(FKey(k), [k](uint32_t x) { g_tr.add((uint32_t)k, x, 0); });
+	if(vf_choose(2)) {
+		// a processing call that fails: it "discards only the events that processing call had already taken out of the queue" -- an event whose
+		// enqueue completed DURING the call (from its predicate) was never taken out by it and must still be delivered, exactly once.
+		// keys 3 and 1 pending; processIf accepts key 1, declines key 3 (put back and merged with the new event); the first predicate call enqueues keys 2 and 4 (two, so that a merge can have moved one before a later comparison throws)
+		q->enqueue(FKey(3), 30u); q->enqueue(FKey(1), 10u);
+		bool enqDone = false, enqDone4 = false; int calls = 0;
+		g_tr.clear();
+		bool failedB = with_faults([&]() { q->processIf([&](uint32_t x) -> bool { if(calls++ == 0) { q->enqueue(FKey(2), 20u); enqDone = true; q->enqueue(FKey(4), 40u); enqDone4 = true; } return x == 10u; }); });
+		if(failedB) vf_cover(COV_STRONG_OP_FAILED);
+		while(q->process()) {}
+		int c1 = 0, c2 = 0, c3 = 0, c4 = 0;
+		for(int i = 0; i < g_tr.n; i++) { if(g_tr.e[i].id == 1u && g_tr.e[i].a == 10u) c1++; else if(g_tr.e[i].id == 2u && g_tr.e[i].a == 20u) c2++; else if(g_tr.e[i].id == 3u && g_tr.e[i].a == 30u) c3++; else if(g_tr.e[i].id == 4u && g_tr.e[i].a == 40u) c4++; else vf_assert(false, 486); }
+		vf_assert(c1 <= 1 && c2 <= 1 && c3 <= 1 && c4 <= 1, 487);                   // nothing twice
+		if(enqDone) vf_assert(c2 == 1, 488); if(enqDone4) vf_assert(c4 == 1, 488);                             // the event enqueued during the failed call is not lost
+		if(! failedB) vf_assert(c1 == 1 && c2 == 1 && c3 == 1 && c4 == 1, 489);
+		vf_assert(q->emptyQueue(), 484);
+		delete q;
+		vf_assert(g_bad == 0, 485);
+		vf_end();
+		return;
+	}
 	// 0..2 events pending, keys out of order
 	int n0 = (int)vf_choose(3); int keys[3]; uint32_t pay[3]; int n = 0;
 	if(n0 >= 1) { keys[n] = 3; pay[n] = 30u; q->enqueue(FKey(3), 30u); n++; }
